@@ -108,3 +108,9 @@ def run(c):
              desc="txhashset_write validates the received state with fast_validation = false")
     c.r2_arg("peer-state-never-fast-2", "grin_chain::txhashset::desegmenter::Desegmenter::validate_complete_state::{closure#1}", E, 2, const=0,
              desc="validate_complete_state validates the PIBD state with fast_validation = false")
+
+
+def run_thorough(c):
+    import witness
+    witness.run(c, "C01")
+
